@@ -16,7 +16,7 @@ func init() {
 		Pkgs:     []string{"rules"},
 		InitPkgs: []string{"filterutil", "rules"},
 		Jobs: func(tier string) []Job {
-			jobs := []Job{{Pkg: "rules", Func: "verifC17Vacuity", Vacuity: true}, {Pkg: "rules", Func: "verifC17Cap"}}
+			jobs := []Job{{Pkg: "rules", Func: "verifC17Vacuity", Vacuity: true}, {Pkg: "rules", Func: "verifC17Cap"}, {Pkg: "rules", Func: "verifC17SourceCap", Args: []int64{0}}, {Pkg: "rules", Func: "verifC17SourceCap", Args: []int64{1}}}
 			maxHost, maxE := 8, 12
 			if tier == "thorough" {
 				maxHost, maxE = 10, 15
@@ -60,9 +60,9 @@ func init() {
 			return jobs
 		},
 		Setup:     setupNetip,
-		MustReach: []string{"c17.extract", "c17.etld.some", "c17.etld.none", "c17.request", "c17.thirdparty", "c17.hostname", "c17.cap"},
+		MustReach: []string{"c17.extract", "c17.etld.some", "c17.etld.none", "c17.request", "c17.thirdparty", "c17.hostname", "c17.cap", "c17.sourcecap"},
 		Bounds: map[string]string{
-			"quick":    "ExtractHostname: scheme 1..3 symbolic bytes, host 0..8 symbolic bytes over {z,q,.,-,1} plus a tail from {'',.com,.co.uk,.org}, six URL shapes (port, path, query, fragment); eTLD+1: host 0..12 symbolic bytes over {z,q,.} plus tail; NewRequest: host and source host 1..5 bytes plus tail; hostname requests incl. an upper-case letter; 4 KiB cap with 8 symbolic bytes around the boundary",
+			"quick":    "ExtractHostname: scheme 1..3 symbolic bytes, host 0..8 symbolic bytes over {z,q,.,-,1} plus a tail from {'',.com,.co.uk,.org}, six URL shapes (port, path, query, fragment); eTLD+1: host 0..12 symbolic bytes over {z,q,.} plus tail; NewRequest: host and source host 1..5 bytes plus tail; hostname requests incl. an upper-case letter; 4 KiB cap of the URL and of the source URL with 8 symbolic bytes around the boundary",
 			"thorough": "hosts up to 10 (ExtractHostname), 15 (eTLD+1) and 6 (NewRequest) symbolic bytes",
 		},
 		Outside:     []string{"the Public Suffix List data: replaced by a compact model (letters z,q,Z form no rule; tails .com .co.uk .org .uk) that is validated exhaustively against the real library on every run", "wildcard and exception PSL rules", "userinfo, IPv6 literals, a fragment directly after the host", "net/url itself: the claim 'the standard parser returns the host' is validated natively on sampled URLs of the grammar"},
